@@ -12,7 +12,9 @@ import itertools
 
 import random
 
-from ..core import Prop, Violation, parse_sx, sx, known_findings, _shrink_candidates
+from ..core import HarnessError, Prop, Violation, parse_sx, sx, known_findings, _shrink_candidates
+
+TOO_MANY_FILES = b"too many open files".hex()
 
 UNARY, CLIENT, SERVER, HALF, FULL = 1, 2, 3, 4, 5
 KIND_OF = {UNARY: 0, CLIENT: 1, SERVER: 2, HALF: 3, FULL: 3}
@@ -327,7 +329,14 @@ class C02(Prop):
         cases = [c for c in super().corpus() if c[0] == "c02.live"] + list(self.live_cases(rng, ctx.tier))
         hang = [c for c in cases if c[1][1] and all(is_zero_request_stream(t) for t in c[3])]
         cases = [c for c in cases if c not in hang]
-        g, m = ctx.eval_both(cases, "live")
+        # one Go process per chunk of batches: every batch starts its own in-process client and servers, and their
+        # sockets add up (a thorough run in one process ran into "too many open files")
+        g, m = [], []
+        for i in range(0, len(cases), 6):
+            gi, mi = ctx.eval_both(cases[i:i + 6], "live%d" % (i // 6))
+            g, m = g + gi, m + mi
+        if any(x is not None and TOO_MANY_FILES in x for x in g):
+            raise HarnessError("live run hit the file-descriptor limit of this machine (too many open files)")
         if hang:        # costs 20 s and the client process: a batch of its own
             gh, mh = ctx.eval_both(hang, "live-hang")
             cases, g, m = cases + hang, g + gh, m + mh
